@@ -384,6 +384,20 @@ class Export(object):
                 # original dataset, we also create a new basin that
                 # refers to the original dataset itself.
                 basin_list = [bn.as_dict() for bn in ds.basins]
+                # The basins above are those of the dataset itself or, for a
+                # hierarchy child, those of its root parent. In the latter
+                # case they enumerate the events of the root parent.
+                num_upstream = len(basin_list)
+                if ds.format == "hierarchy":
+                    # avoid circular imports
+                    from .fmt_hierarchy import map_indices_child2root
+                    upstream_idx = map_indices_child2root(
+                        child=ds,
+                        child_indices=np.arange(len(ds)))
+                    if filtered:
+                        upstream_idx = upstream_idx[filter_arr]
+                else:
+                    upstream_idx = None
                 # In addition to the upstream basins, also store a reference
                 # to the original file from which the export was done.
                 if ds.format in get_basin_classes():
@@ -435,14 +449,21 @@ class Export(object):
                             ),
                     })
 
-                for bn_dict in basin_list:
+                for ii, bn_dict in enumerate(basin_list):
                     if bn_dict.get("basin_type") == "internal":
                         # Internal basins are only valid for files they were
                         # defined in. Since we are exporting, it does not
                         # make sense to store these basins in the output file.
                         continue
                     basinmap_orig = bn_dict.get("basin_map")
-                    if not filtered:
+                    if ii < num_upstream and upstream_idx is not None:
+                        # basins of the root parent of a hierarchy child:
+                        # map via the root parent's event indices
+                        if basinmap_orig is None:
+                            bn_dict["basin_map"] = upstream_idx
+                        else:
+                            bn_dict["basin_map"] = basinmap_orig[upstream_idx]
+                    elif not filtered:
                         # filtering disabled: just copy basins
                         pass
                     elif basinmap_orig is None:
